@@ -1,4 +1,5 @@
-"""C16 — scalar codec primitives: correspondence (T2), reference comparison (T3), oracle."""
+"""C16 — scalar codec primitives: source-translation tie (non-alarming, recorded only), correspondence (T2),
+reference comparison (T3), oracle."""
 import io
 import struct
 from concurrent.futures import ThreadPoolExecutor
@@ -62,8 +63,100 @@ def res_any(f, conv):
         return ce("EOther")
 
 
+
+# --------------------------------------------------------------------------------------------------------------------
+# Source-translation tie (second, tighter tie for the varint primitives; NON-ALARMING on its own).
+#   harness/gen_c16_src.py translates the CURRENT source text of dump/encode/size/load/decode_varint (and the two zig-zag
+#   expressions) into coq/gen/C16Src.v; Proofs/C16Src*.v prove the translation equal to the hand-written model;
+#   Properties/C16Src.v / C16SrcZigzag.v state it.  These files are NOT among the targets of the main build (EXTRA_TARGETS):
+#   a behaviour-preserving rewrite of the Python functions may make the translator reject or the proof scripts fail while
+#   C16 still holds.  So this stage only RECORDS whether the tie held (evidence: input_distribution "source_tie:*",
+#   coverage.source_translation_tie, an assumptions line, the theorems + Print Assumptions verdicts when it held) and NEVER
+#   calls ctx.fail: when it does not hold, the sampled correspondence and the oracles below decide, as before.
+# --------------------------------------------------------------------------------------------------------------------
+SRC_TIE_PARTS = [
+    ("varint", "C16Src.v", "dump_varint / encode_varint / size_varint / load_varint / decode_varint"),
+    ("zigzag", "C16SrcZigzag.v", "the zig-zag expressions of _preprocess_single / _postprocess_single"),
+]
+
+
+class _AuditSink:
+    """lib.audit stores its result in `.proof` of whatever it is given; keeps the main ctx.proof untouched"""
+    proof = None
+
+
+def source_tie_stage(ctx):
+    import os
+    import re
+
+    report = {"translator": None, "parts": {}}
+    ctx.cov["source_translation_tie"] = report
+    lines = []
+    try:
+        # (a) the translator's verdict on the current source (dry run: writes nothing; setup.sh below regenerates gen/C16Src.v
+        #     under the build lock)
+        rc, out = lib.run([lib.PY, os.path.join(lib.VERIF, "harness", "gen_c16_src.py"), "--dry-run"], timeout=300, cwd=lib.VERIF)
+        # the translator's own regression snippets (constructs outside the subset must be rejected): a translator that
+        # fails them is not trusted to tie anything
+        src, sout = lib.run([lib.PY, os.path.join(lib.VERIF, "harness", "gen_c16_src.py"), "--selftest"], timeout=300, cwd=lib.VERIF)
+        report["translator_selftest"] = sout.strip().splitlines()[-1][:200] if sout.strip() else "no output"
+        ctx.count("source_tie:translator_selftest_ok", 1 if src == 0 else 0)
+        verdicts = {}
+        for l in ([] if src != 0 else out.splitlines()):
+            m = re.match(r"C16SRC-TRANSLATION-(OK|REJECTED): (\w+)(?:: (.*))?$", l)
+            if m:
+                verdicts[m.group(2)] = (m.group(1) == "OK", m.group(3) or "")
+        report["translator"] = {k: {"accepted": ok, "message": why or "accepted"} for k, (ok, why) in verdicts.items()}
+        for key, prop_file, what in SRC_TIE_PARTS:
+            part = {"what": what, "held": False, "reason": None, "theorems": []}
+            report["parts"][key] = part
+            ok, why = verdicts.get(key, (False, "translator self-test failed" if src != 0 else "no verdict from the translator: " + out.strip()[-300:]))
+            ctx.count(f"source_tie:{key}_translated", 1 if ok else 0)
+            if not ok:
+                part["reason"] = "translator rejected the current source (construct outside its subset): " + why
+            else:
+                brc, bout = lib.run([os.path.join(lib.VERIF, "setup.sh"), "Properties/" + prop_file + "o"], timeout=1500, cwd=lib.VERIF)
+                if brc != 0:
+                    err = re.findall(r'File "[^"]*", line \d+[^\n]*\n(?:[^\n]*\n){0,6}', bout)
+                    part["reason"] = ("gen/C16Src.v or its proofs do not compile against the current source (the proof scripts are tied "
+                                      "to the shape of the code): " + (err[0] if err else bout[-600:]).strip()[:900])
+                else:
+                    sink = _AuditSink()
+                    pr = lib.audit(sink, prop_file)
+                    part["theorems"] = pr["theorems"]
+                    if pr["problems"] or pr["discharged"] != pr["obligations"] or not pr["obligations"]:
+                        part["reason"] = "audit of Properties/%s: %s" % (prop_file, "; ".join(pr["problems"])[:600] or "no theorem")
+                    else:
+                        part["held"] = True
+                        part["print_assumptions"] = "all %d theorems closed under the global context" % pr["obligations"]
+                        # the audit of the main file must have succeeded for the merged counts to mean anything
+                        if ctx.proof and not ctx.proof.get("problems") and ctx.build_ok:
+                            ctx.proof["obligations"] += pr["obligations"]
+                            ctx.proof["discharged"] += pr["discharged"]
+                            ctx.proof["theorems"] = list(ctx.proof["theorems"]) + pr["theorems"]
+                            ctx.proof["verdicts"] = list(ctx.proof["verdicts"]) + pr["verdicts"]
+            ctx.count(f"source_tie:{key}_held", 1 if part["held"] else 0)
+            lines.append(f"{key} ({what}): " + ("HELD, %d theorems of Properties/%s closed" % (len(part["theorems"]), prop_file) if part["held"]
+                                                 else "DID NOT HOLD on this tree - " + str(part["reason"])[:400]))
+    except Exception as e:  # noqa  - this stage must never decide the check
+        report["stage_error"] = repr(e)[:500]
+        lines.append("stage could not complete: " + repr(e)[:300])
+        for key, _, _ in SRC_TIE_PARTS:
+            if key not in report["parts"] or not report["parts"][key].get("held"):
+                ctx.dist.setdefault(f"source_tie:{key}_held", 0)
+    held_all = all(report["parts"].get(k, {}).get("held") for k, _, _ in SRC_TIE_PARTS)
+    ctx.src_tie_line = ("source-translation tie (harness/gen_c16_src.py -> coq/gen/C16Src.v, proved equal to the model in Properties/C16Src*.v): "
+                        + "; ".join(lines)
+                        + (". Where it did not hold the check FELL BACK to the sampled correspondence and the oracles (no verdict is drawn "
+                           "from a failed translation or a failed equality proof)." if not held_all else ""))
+    ctx.notes.append(ctx.src_tie_line)
+    return report
+
+
 def run(ctx):
     import betterproto as bp
+
+    source_tie_stage(ctx)
 
     # ------------------------------------------------------------------ inputs
     rng = ctx.rng
@@ -485,10 +578,20 @@ def t3(ctx, ints, rng):
 
 
 def finish(ctx):
+    tie = ctx.cov.get("source_translation_tie") or {}
+    held = [k for k, p in (tie.get("parts") or {}).items() if p.get("held")]
+    assumptions = list(ASSUMPTIONS) + [getattr(ctx, "src_tie_line", "source-translation tie: stage not run")]
+    trusted = list(TRUSTED)
+    if held:
+        trusted.append("source-translation tie (held for: " + ", ".join(held) + "): the translator harness/gen_c16_src.py (Python `ast`, fail-closed, "
+                       "accepted subset documented in its header) and the semantics of the Python primitives it targets, coq/Model/C16SrcLib.v "
+                       "(ints as Z, bytes as lists, streams as byte lists, exceptions by class only, stream state dropped on an exception); "
+                       "for these functions the hand-written model is no longer trusted beyond that: it is PROVED equal to the translation")
     return lib.finish(
         ctx, "proof",
-        "Coq theorems over a Gallina mirror of the varint/zig-zag/fixed primitives + executable correspondence (vm_compute) with the implementation",
-        ASSUMPTIONS, TRUSTED, RULE,
+        "Coq theorems over a Gallina mirror of the varint/zig-zag/fixed primitives + executable correspondence (vm_compute) with the implementation"
+        + ("; varint primitives additionally tied by mechanical source translation proved equal to the model" if "varint" in held else ""),
+        assumptions, trusted, RULE,
         extra_cov={"exhaustive": False,
                    "explanation": "theorems are unbounded; the correspondence is exhaustive below 2**21 and on all byte strings of length <= 2, sampled elsewhere"})
 
